@@ -9,6 +9,7 @@ import ButlerModel.Driver.C16
 import ButlerModel.Driver.C18
 import ButlerModel.Driver.C13
 import ButlerModel.Driver.C02
+import ButlerModel.Driver.C10
 /-! Line-protocol driver: one request per line on stdin, one reply per line on stdout.
 The first token selects the model; stateful models keep their state in `DState`. -/
 
@@ -19,6 +20,7 @@ structure DState where
   page : Driver.C16.St := {}
   did : Driver.C13.St := {}
   reg : Registry.St := {}
+  repo : Registry.Repo := {}
 
 def step (st : DState) (line : String) : DState × String :=
   let toks := (line.splitOn " ").filter (· ≠ "")
@@ -34,6 +36,7 @@ def step (st : DState) (line : String) : DState × String :=
   | "page" :: rest => let (c, out) := Driver.C16.handle st.page rest; ({ st with page := c }, out)
   | "did" :: rest => let (c, out) := Driver.C13.handle st.did rest; ({ st with did := c }, out)
   | "reg" :: rest => let (c, out) := Driver.C02.handle st.reg rest; ({ st with reg := c }, out)
+  | "repo" :: rest => let (c, out) := Driver.C10.handle st.repo rest; ({ st with repo := c }, out)
   | _ => (st, "bad-op")
 
 partial def loop (h : IO.FS.Stream) (out : IO.FS.Stream) (st : DState) : IO Unit := do
